@@ -1,8 +1,16 @@
-"""C10 - messages produced by correct operators are never rejected by correct peers (spec/QBFTTimely.tla)."""
-import copy
+"""C10 - messages produced by correct operators are never rejected by correct peers.
+
+spec/QBFTTimely.tla  : consensus messages (QBFT under a global round clock + the gate's reject rules, emitter side)
+spec/PartialTimely.tla: partial-signature messages of the duty runners (one duty, all roles) + the gate's rules
+driver cmd/c10        : real controllers (qbftkit) / real validators with real duty runners of every role (duty world),
+                        every broadcast validated by the real message validator of every other correct peer at virtual
+                        times inside the message's window (real round-timer arithmetic, slot window probed on the gate).
+"""
+import hashlib
 import json
 import os
 import time
+from concurrent.futures import ThreadPoolExecutor
 
 import vlib
 from vlib import log
@@ -11,87 +19,250 @@ from props import qbft_common as Q
 PROP = "C10"
 INV = ("NoHonestReject", "RoundWindow", "Agreement")
 ROLES = ["attester", "aggregator", "proposer", "sync", "contribution"]
+ROLES12 = ["attester", "aggregator"]                 # the gate admits rounds 1..12
+ROLES6 = ["proposer", "sync", "contribution"]        # rounds 1..6
+STRICT = ["  Lossy = FALSE", "  LateRounds = {}"]
+ALL_PT_ROLES = '{"attester", "aggregator", "proposer", "sync", "contribution", "registration", "exit"}'
+PT_INV = ("NoHonestPartialReject", "FaultFreeAccept", "TypeOK")
 
 
-def _run_tlc(name, thorough, **kw):
-    budget = 1500 if thorough else 150
+def late_rounds(k):
+    """LateRounds = 1..k as a TLC configuration value."""
+    return "  LateRounds = {%s}" % ", ".join(str(i) for i in range(1, k + 1))
+
+
+def pool_run(jobs, width):
+    """Run callables concurrently (TLC processes; the machine is shared: few workers each); results in job order.
+    The first exception is re-raised after every job has finished."""
+    with ThreadPoolExecutor(width) as ex:
+        futs = [ex.submit(j) for j in jobs]
+        out, err = [], None
+        for f in futs:
+            try:
+                out.append(f.result())
+            except Exception as e:  # noqa: BLE001
+                out.append(None)
+                err = err or e
+        if err:
+            raise err
+        return out
+
+
+# ---------------------------------------------------------------------------------------------------------
+# spec/PartialTimely.tla
+# ---------------------------------------------------------------------------------------------------------
+
+def pt_cfg(N=4, F=1, roles=ALL_PT_ROLES, silents="{{}}", subnets="SubsDistinct", inorder="TRUE", grain="quorum", maxfail=12,
+           late="FALSE", invariants=PT_INV, view=True):
+    t = ["SPECIFICATION Spec", "CONSTANTS", "  N = %d" % N, "  F = %d" % F, "  RoleChoices = %s" % roles,
+         "  SilentChoices = %s" % silents, "  SubnetChoices <- %s" % subnets, "  InOrder = %s" % inorder,
+         '  Grain = "%s"' % grain, "  MaxFail = %d" % maxfail, "  LateDecision = %s" % late]
+    t += ["INVARIANT %s" % i for i in invariants]
+    if view:
+        t.append("VIEW view")
+    return "\n".join(t) + "\n"
+
+
+def pt_exhaustive(name, budget, workers, expect_violation=None, **kw):
+    text = pt_cfg(**kw)
+    r = vlib.tlc("MCPartialTimely", "pt_%s.cfg" % name, name="%s-pt-%s" % (PROP, name), workers=workers, timeout=budget + 120,
+                 stop_after=budget, files={"pt_%s.cfg" % name: text})
+    if r.error:
+        raise vlib.MachineryError("TLC error in PartialTimely/%s: %s" % (name, r.error))
+    if expect_violation:
+        if r.violation != expect_violation:
+            raise vlib.MachineryError("PartialTimely/%s: expected a counterexample to %s (the recorded finding), got %s" % (
+                name, expect_violation, r.violation))
+        log("[C10] TLC PartialTimely %s: counterexample of %d states to %s, as recorded (%d distinct, %.0fs)" % (
+            name, len(r.trace), expect_violation, r.distinct, r.wall))
+        return {"cfg": "PartialTimely/" + name, "distinct": r.distinct, "generated": r.generated, "depth": r.depth, "exhaustive": False,
+                "wall_s": round(r.wall, 1), "expected_counterexample": expect_violation, "constants": {k: str(v) for k, v in kw.items() if k != "invariants"}}
+    if r.violation:
+        raise vlib.MachineryError("faithful PartialTimely spec violates %s in config %s (model error, not a verdict): %s" % (
+            r.violation, name, json.dumps(vlib.tlaval.plain([s.get("act") for s in r.trace]))))
+    if r.distinct == 0:
+        raise vlib.MachineryError("TLC gave no statistics for PartialTimely/%s:\n%s" % (name, r.out[-1500:]))
+    log("[C10] TLC PartialTimely %s: %d distinct / %d generated, depth %d, exhaustive=%s, %.0fs" % (
+        name, r.distinct, r.generated, r.depth, r.finished, r.wall))
+    return {"cfg": "PartialTimely/" + name, "distinct": r.distinct, "generated": r.generated, "depth": r.depth, "exhaustive": r.finished,
+            "wall_s": round(r.wall, 1), "constants": {k: str(v) for k, v in kw.items() if k != "invariants"}}
+
+
+ROLE_OF_SPEC = {"attester": "attester", "aggregator": "aggregator", "proposer": "proposer", "sync": "sync",
+                "contribution": "contribution", "registration": "registration", "exit": "exit"}
+
+
+def pt_simulate(name, num, depth, seed, workers=2, **kw):
+    """-simulate runs of PartialTimely; the duty (role, crash set, leader rotation, duty shape) is read from the first
+    state of each behaviour and becomes the behaviour's parameters."""
+    kw.setdefault("invariants", PT_INV)
+    text = pt_cfg(view=False, **kw)
+    # TLC picks the duty at random: three times as many runs are generated and a selection balanced over the roles and
+    # crash sets is kept
+    per = max(1, (3 * num) // workers)
+    keep = ["act", "role", "silent", "off", "subnets", "psent", "dr"]
+    r, behs = vlib.tlc_simulate("MCPartialTimely", "pt_%s.cfg" % name, per, depth, seed, name="%s-pt-%s" % (PROP, name),
+                                keep_vars=keep, timeout=900, workers=workers, files={"pt_%s.cfg" % name: text})
+    if r.error:
+        raise vlib.MachineryError("TLC simulation error in PartialTimely/%s: %s" % (name, r.error[-1500:]))
+    if r.violation:
+        raise vlib.MachineryError("faithful PartialTimely spec violates %s in simulation %s (model error)" % (r.violation, name))
+    out = []
+    for k, b in enumerate(behs):
+        if not b:
+            continue
+        first = vlib.tlaval.plain(b[0])
+        bb = vlib.trace_behaviour(b, "duty-%s-%d-%d" % (name, seed, k), "sim", state_vars=["psent"])
+        subnets = list(first.get("subnets") or [0])
+        silent = sorted(first.get("silent") or [])
+        failed = any(s["act"].get("name") == "FailRound" for s in bb["steps"])
+        bb["params"] = {"mode": "duty", "N": kw.get("N", 4), "Silent": silent, "role": ROLE_OF_SPEC[first["role"]],
+                        "LeaderOffset": int(first.get("off", 0)),
+                        # the j-th sync-committee position of the validator lies in subcommittee subnets[j] (128 positions each)
+                        "Indices": [128 * int(s) + 3 + 11 * j for j, s in enumerate(subnets)],
+                        # fault-free, timely (decided in round 1), validated in emission order: everything must be accepted
+                        "sync": (not silent) and not failed}
+        if (k + seed) % 5 == 0 and first["role"] == "proposer":
+            bb["params"]["role"] = "proposer_blinded"
+        out.append(bb)
+    groups = {}
+    for bb in out:
+        groups.setdefault((bb["params"]["role"], tuple(bb["params"]["Silent"])), []).append(bb)
+    picked, keys = [], sorted(groups)
+    while len(picked) < num and any(groups[g] for g in keys):
+        for g in keys:
+            if groups[g] and len(picked) < num:
+                picked.append(groups[g].pop(0))
+    log("[C10] simulated %d duty behaviours (%s), kept %d balanced over %d (role, crash set) classes, %d states, %.0fs" % (
+        len(out), name, len(picked), len(keys), r.generated, r.wall))
+    return picked, r.generated
+
+
+# ---------------------------------------------------------------------------------------------------------
+
+def _run_tlc(name, budget, workers, **kw):
+    kw.setdefault("extra", STRICT)
     return Q.run_exhaustive(PROP, name, module="MCQBFTTimely", spec="TSpec", view="tview", Macro="TRUE",
-                            invariants=INV, timeout=budget + 120, stop_after=budget, extra=["  Lossy = FALSE"],
-                            workers=vlib.NCPU if thorough else 8, **kw)
+                            invariants=INV, timeout=budget + 120, stop_after=budget, workers=workers, **kw)
+
+
+def _sim(name, num, depth, seed, params, workers, **kw):
+    kw.setdefault("extra", STRICT)
+    kw.setdefault("invariants", ("NoHonestReject",))
+    return Q.simulate(PROP, "sim-" + name, num, depth, seed, params, module="MCQBFTTimely", spec="TSpec",
+                      ByzBudget=0, ByzActs="NoActs", Macro="FALSE", state_vars=(), workers=workers, timeout=1200, **kw)
 
 
 def run(tier, seed):
     t0 = time.time()
     thorough = tier == "thorough"
     verdict = vlib.Verdict(PROP)
-    configs = []
-    states = transitions = 0
-    # ---- exhaustive: the timely class with crash faults (silent member), every leader rotation ----
-    ex = [dict(name="silent-member", MaxRound=3, Byz="{4}", LeaderOffset=0, ByzBudget=0, ByzActs="NoActs"),
-          dict(name="silent-leader", MaxRound=3, Byz="{4}", LeaderOffset=3, ByzBudget=0, ByzActs="NoActs"),
-          dict(name="silent-leader-of-round2", MaxRound=3, Byz="{4}", LeaderOffset=2, ByzBudget=0, ByzActs="NoActs"),
-          dict(name="silent-leader-4-rounds", MaxRound=4, Byz="{4}", LeaderOffset=3, ByzBudget=0, ByzActs="NoActs")]
+    budget = 1500 if thorough else 150
+    box7 = 240 if thorough else 40          # committee 7: the larger classes are explored inside a time box
+    tw = 4 if thorough else 3               # TLC workers per job; jobs run `width` at a time (the machine is shared)
+    width = 3 if thorough else 6
+    no = dict(ByzBudget=0, ByzActs="NoActs")
+    # ---- exhaustive: the timely class with crash faults, committee 4 (every leader rotation) and committee 7 ----
+    ex = [dict(name="silent-leader", MaxRound=3, Byz="{4}", LeaderOffset=3, **no),
+          dict(name="silent-member", MaxRound=3, Byz="{4}", LeaderOffset=0, **no),
+          dict(name="silent-leader-of-round2", MaxRound=3, Byz="{4}", LeaderOffset=2, **no),
+          dict(name="n7-two-silent-members", N=7, F=2, MaxRound=2, Byz="{6, 7}", LeaderOffset=0, **no)]
     if thorough:
-        ex += [dict(name="no-fault-1-round", MaxRound=1, Byz="{}", LeaderOffset=0, ByzBudget=0, ByzActs="NoActs"),
-               dict(name="silent-leader-same-values", MaxRound=3, Byz="{4}", LeaderOffset=3, ByzBudget=0, ByzActs="NoActs", StartValue="SVsame"),
-               dict(name="no-fault-2-rounds", MaxRound=2, Byz="{}", LeaderOffset=0, ByzBudget=0, ByzActs="NoActs"),
-               dict(name="timely-byzantine-leader", MaxRound=2, Byz="{4}", LeaderOffset=3, ByzBudget=2, ByzActs="LeaderActs")]
+        # (the fault-free class has 9.2 M states whether 1 or 2 rounds are explored; 504 s on an idle machine, 16 workers)
+        ex += [dict(name="no-fault-2-rounds", MaxRound=2, Byz="{}", LeaderOffset=0, workers=8, box=2100, **no),
+               dict(name="timely-byzantine-leader", MaxRound=2, Byz="{4}", LeaderOffset=3, ByzBudget=2, ByzActs="LeaderActs"),
+               dict(name="n7-two-silent-leaders", N=7, F=2, MaxRound=3, Byz="{6, 7}", LeaderOffset=5, box=box7, **no),
+               dict(name="n7-one-silent-leader", N=7, F=2, MaxRound=2, Byz="{7}", LeaderOffset=6, box=box7, **no),
+               dict(name="n7-no-fault-1-round", N=7, F=2, MaxRound=1, Byz="{}", LeaderOffset=0, box=box7, **no),
+               dict(name="silent-leader-of-round3", MaxRound=4, Byz="{4}", LeaderOffset=1, **no),
+               dict(name="silent-leader-4-rounds", MaxRound=4, Byz="{4}", LeaderOffset=3, **no),
+               dict(name="silent-leader-same-values", MaxRound=3, Byz="{4}", LeaderOffset=3, StartValue="SVsame", **no)]
+    # every TLC job of the run (exhaustive configs first: they are the long ones) goes through ONE pool
+    jobs = []
     for c in ex:
-        name = c.pop("name")
-        info = _run_tlc(name, thorough, **c)
-        configs.append(info)
-        states += info["distinct"]
-        transitions += info["generated"]
+        c = dict(c)
+        name, b, wk = c.pop("name"), c.pop("box", budget), c.pop("workers", tw)
+        jobs.append(lambda name=name, b=b, wk=wk, c=c: _run_tlc(name, b, wk, **c))
+    # ---- exhaustive: partial-signature messages of one duty, all seven roles (spec/PartialTimely.tla) ----
+    jobs.append(lambda: pt_exhaustive("n7-all-roles", budget, tw + 1, N=7, F=2, silents="{{}, {7}, {6, 7}}" if thorough else "{{}, {6, 7}}",
+                                      grain="quorum", maxfail=12))
+    jobs.append(lambda: pt_exhaustive("n4-all-roles", budget, tw, N=4, F=1, silents="{{}, {4}}", grain="quorum", maxfail=12))
+    # the recorded finding: two sync-committee positions in one subcommittee -> the same signing root twice
+    jobs.append(lambda: pt_exhaustive("finding-dup-subcommittee", 120, 2, expect_violation="NoDuplicateRoots", N=4, F=1,
+                                      roles='{"contribution"}', subnets="SubsDup", maxfail=0, invariants=("NoDuplicateRoots",)))
+    if thorough:
+        jobs.append(lambda: pt_exhaustive("n4-message-grain", budget, tw, N=4, F=1, silents="{{}, {4}}", grain="message", maxfail=3))
+        jobs.append(lambda: pt_exhaustive("n4-four-subcommittees", budget, tw, N=4, F=1, roles='{"contribution"}', subnets="SubsFour",
+                                          silents="{{}, {1}}", grain="message", maxfail=6))
+        jobs.append(lambda: pt_exhaustive("n7-message-grain", box7, tw, N=7, F=2, silents="{{}, {6, 7}}", grain="message", maxfail=1))
+    nex = len(jobs)
+    states = transitions = 0
     # ---- named finding config: a timely Byzantine member + a decided certificate of an earlier round ----
     # (expected to VIOLATE NoHonestReject in the faithful spec: this is the recorded finding, replayed below)
     text = Q.cfg_text(spec="TSpec", Macro="TRUE", MaxRound=3, Byz="{4}", LeaderOffset=3, ByzBudget=3, ByzActs="AllActs",
-                      invariants=("LeaderStamped",), view="tview", extra=["  Lossy = FALSE"])
+                      invariants=("LeaderStamped",), view="tview", extra=STRICT)
     finding_beh = []
     # the counterexample depends only on the spec: cached under spec/attacks, regenerated when the spec changes
-    import hashlib
     h = hashlib.sha256()
     for f in ("QBFT.tla", "QBFTTimely.tla", "MCQBFTTimely.tla"):
         h.update(open(os.path.join(vlib.SPEC, f), "rb").read())
     h.update(text.encode())
     cache = os.path.join(vlib.SPEC, "attacks", "timely-finding-stale-round-proposal.json")
     rec = json.load(open(cache)) if os.path.exists(cache) else {}
-    if rec.get("spec_hash") != h.hexdigest()[:16] and (thorough or not rec):
-        rf = vlib.tlc("MCQBFTTimely", "gen_finding.cfg", name="C10-finding", workers=vlib.NCPU if thorough else 8, timeout=900,
+    regen = rec.get("spec_hash") != h.hexdigest()[:16] and (thorough or not rec)
+
+    def gen_finding():
+        rf = vlib.tlc("MCQBFTTimely", "gen_finding.cfg", name="C10-finding", workers=8 if thorough else 4, timeout=900,
                       stop_after=780, files={"gen_finding.cfg": text})
         if rf.error:
             raise vlib.MachineryError("C10 finding config: %s" % rf.error)
-        rec = {"spec_hash": h.hexdigest()[:16], "cfg": text, "behaviour": None,
+        out = {"spec_hash": h.hexdigest()[:16], "cfg": text, "behaviour": None,
                "tlc": {"distinct": rf.distinct, "generated": rf.generated, "wall_s": round(rf.wall, 1)}}
         if rf.violation:
             b = vlib.trace_behaviour(rf.trace, "finding-stale-round-proposal", "finding")
             b["params"] = dict(Q.params_of(LeaderOffset=3), role="attester", pos=1)
-            rec["behaviour"] = b
+            out["behaviour"] = b
         os.makedirs(os.path.dirname(cache), exist_ok=True)
-        json.dump(rec, open(cache, "w"), indent=1)
+        json.dump(out, open(cache, "w"), indent=1)
         log("[C10] finding config: %s (%d distinct, %.0fs)" % ("counterexample of %d states to LeaderStamped" % len(rf.trace)
             if rf.violation else "no counterexample within the budget", rf.distinct, rf.wall))
-        states += rf.distinct
-        transitions += rf.generated
+        return out
+
+    if regen:
+        jobs.insert(0, gen_finding)
+        nex += 1
     elif rec.get("spec_hash") != h.hexdigest()[:16]:
         log("[C10] NOTE: the cached finding trace is stale w.r.t. the current spec (regenerated by the thorough tier)")
-    if rec.get("behaviour"):
-        finding_beh.append(rec["behaviour"])
     # ---- behaviours replayed on real controllers with a real gate at every correct peer ----
-    nsim = 40 if not thorough else 600
-    behs = []
-    fams = [("silent-leader", dict(Byz="{4}", LeaderOffset=3), Q.params_of(LeaderOffset=3), 6),
-            ("silent-member", dict(Byz="{4}", LeaderOffset=0), Q.params_of(LeaderOffset=0), 3),
-            ("silent-leader-r2", dict(Byz="{4}", LeaderOffset=2), Q.params_of(LeaderOffset=2), 6),
-            ("no-fault", dict(Byz="{}", LeaderOffset=1), Q.params_of(Byz=(), LeaderOffset=1), 2)]
-    for k, (name, kw, params, maxr) in enumerate(fams):
-        b, gen = Q.simulate(PROP, "sim-" + name, nsim, 160, seed + k, params, module="MCQBFTTimely", spec="TSpec",
-                            MaxRound=maxr, ByzBudget=0, ByzActs="NoActs", Macro="FALSE", invariants=("NoHonestReject",),
-                            state_vars=(), workers=4 if not thorough else 12, timeout=1200, extra=["  Lossy = FALSE"], **kw)
-        transitions += gen
-        for j, x in enumerate(b):
-            x["params"] = dict(x["params"], role=ROLES[(j + k) % len(ROLES)], pos=(j + seed) % 3,
-                               sync=(name == "no-fault"))
-        behs += b
+    n4 = 20 if not thorough else 300        # per family, committee 4
+    n7 = 6 if not thorough else 60          # committee 7
+    nh = 4 if not thorough else 40          # high rounds (long behaviours)
+    nl = 16 if not thorough else 300        # lossy class
+    sw = 2 if not thorough else 4
+    P7 = dict(N=7, F=2)
+    fams = [("silent-leader", n4, 160, dict(Byz="{4}", LeaderOffset=3, MaxRound=6), Q.params_of(LeaderOffset=3), ROLES),
+            ("silent-member", n4, 160, dict(Byz="{4}", LeaderOffset=0, MaxRound=3), Q.params_of(LeaderOffset=0), ROLES),
+            ("silent-leader-r2", n4, 160, dict(Byz="{4}", LeaderOffset=2, MaxRound=6), Q.params_of(LeaderOffset=2), ROLES),
+            ("no-fault", n4, 160, dict(Byz="{}", LeaderOffset=1, MaxRound=2), Q.params_of(Byz=(), LeaderOffset=1), ROLES),
+            # committee 7 (f = 2)
+            ("n7-two-silent-leaders", n7, 300, dict(Byz="{6, 7}", LeaderOffset=5, MaxRound=4, **P7), Q.params_of(N=7, Byz=(6, 7), LeaderOffset=5), ROLES),
+            ("n7-silent-leader-and-member", n7, 300, dict(Byz="{3, 7}", LeaderOffset=6, MaxRound=4, **P7), Q.params_of(N=7, Byz=(3, 7), LeaderOffset=6), ROLES),
+            ("n7-no-fault", n7, 300, dict(Byz="{}", LeaderOffset=2, MaxRound=2, **P7), Q.params_of(N=7, Byz=(), LeaderOffset=2), ROLES),
+            # rounds up to the role's maximum: the leaders of rounds 1..k-1 are silent or LATE (their proposal misses the
+            # round), the instance decides in round k = the highest round the gate admits for the role; one class goes one
+            # round beyond it
+            ("high-12", nh, 900, dict(Byz="{4}", LeaderOffset=3, MaxRound=12, extra=["  Lossy = FALSE", late_rounds(11)]), Q.params_of(LeaderOffset=3), ROLES12),
+            ("high-6", nh, 500, dict(Byz="{}", LeaderOffset=0, MaxRound=6, extra=["  Lossy = FALSE", late_rounds(5)]), Q.params_of(Byz=(), LeaderOffset=0), ROLES6),
+            ("high-7-beyond", nh, 600, dict(Byz="{4}", LeaderOffset=1, MaxRound=7, extra=["  Lossy = FALSE", late_rounds(6)]), Q.params_of(LeaderOffset=1), ROLES6),
+            ]
+    if thorough:
+        fams += [("n7-two-silent-members", n7, 300, dict(Byz="{6, 7}", LeaderOffset=0, MaxRound=3, **P7), Q.params_of(N=7, Byz=(6, 7), LeaderOffset=0), ROLES),
+                 ("n7-high-12", 12, 1600, dict(Byz="{6, 7}", LeaderOffset=5, MaxRound=12, extra=["  Lossy = FALSE", late_rounds(11)], **P7),
+                  Q.params_of(N=7, Byz=(6, 7), LeaderOffset=5), ROLES12),
+                 ("n7-high-6", 12, 900, dict(Byz="{7}", LeaderOffset=6, MaxRound=6, extra=["  Lossy = FALSE", late_rounds(5)], **P7),
+                  Q.params_of(N=7, Byz=(7,), LeaderOffset=6), ROLES6)]
+    for k, (name, num, depth, kw, params, roles) in enumerate(fams):
+        jobs.append(lambda k=k, name=name, num=num, depth=depth, kw=kw, params=params: _sim(name, num, depth, seed + k, params, sw, **kw))
     # ---- beyond the strict class: a message may miss its round at some recipients (late / lost), every gate still sees
     # it inside its window.  Behaviours are pruned (CONSTRAINT) where the spec's emitter-side rules say a reject is
     # possible (that is the recorded finding under message loss), so on everything replayed the spec predicts "never
@@ -100,15 +271,59 @@ def run(tier, seed):
              ("lossy-no-fault", dict(Byz="{}", LeaderOffset=0), Q.params_of(Byz=(), LeaderOffset=0), 3, "SV"),
              ("lossy-same-values", dict(Byz="{}", LeaderOffset=1), dict(Q.params_of(Byz=(), LeaderOffset=1), StartValue="same"), 4, "SVsame")]
     for k, (name, kw, params, maxr, sv) in enumerate(lossy):
-        b, gen = Q.simulate(PROP, "sim-" + name, nsim, 120, seed + 10 + k, params, module="MCQBFTTimely", spec="TSpec",
-                            MaxRound=maxr, ByzBudget=0, ByzActs="NoActs", Macro="FALSE", StartValue=sv,
-                            state_vars=(), workers=4 if not thorough else 12, timeout=1200,
-                            extra=["  Lossy = TRUE", "CONSTRAINT NoHonestReject"], **kw)
+        jobs.append(lambda k=k, name=name, kw=kw, params=params, maxr=maxr, sv=sv: _sim(
+            name, nl, 120, seed + 10 + k, params, sw, MaxRound=maxr, StartValue=sv, invariants=(),
+            extra=["  Lossy = TRUE", "  LateRounds = {}", "CONSTRAINT NoHonestReject"], **kw))
+    # ---- duties of real runners (spec/PartialTimely.tla): all seven roles, per-message delivery in any order ----
+    d4 = 42 if not thorough else 420
+    d7 = 14 if not thorough else 105
+    dl = 10 if not thorough else 60
+    duty = [("n4", d4, dict(N=4, F=1, silents="{{}, {4}, {1}}", inorder="FALSE", grain="message", maxfail=3)),
+            ("n7", d7, dict(N=7, F=2, silents="{{}, {7}, {6, 7}}", inorder="FALSE", grain="message", maxfail=3)),
+            ("n4-four-subcommittees", max(2, d4 // 7), dict(N=4, F=1, roles='{"contribution"}', subnets="SubsFour", silents="{{}, {2}}",
+                                                           inorder="FALSE", grain="message", maxfail=2)),
+            # the decision falls into the last rounds the gate admits for the role (12 / 6)
+            ("n4-late-decision", dl, dict(N=4, F=1, roles='{"attester", "aggregator", "proposer", "sync", "contribution"}', silents="{{}, {4}}",
+                                          inorder="TRUE", grain="quorum", maxfail=12, late="TRUE")),
+            ("n7-late-decision", max(2, dl // 3), dict(N=7, F=2, roles='{"attester", "aggregator", "proposer", "sync", "contribution"}',
+                                                      silents="{{}, {6, 7}}", inorder="TRUE", grain="quorum", maxfail=12, late="TRUE")),
+            # the recorded finding (replayed first by the driver's monitor under its own signature)
+            ("finding-dup-subcommittee", 2, dict(N=4, F=1, roles='{"contribution"}', subnets="SubsDup", silents="{{}}", inorder="TRUE",
+                                                 grain="quorum", maxfail=0, invariants=()))]
+    for k, (name, num, kw) in enumerate(duty):
+        jobs.append(lambda k=k, name=name, num=num, kw=kw: pt_simulate(name, num, 140, seed + 20 + k, workers=sw, **kw))
+    jobs.append(lambda: vlib.go_build("c10"))     # the driver is built while TLC runs
+    done = pool_run(jobs, width)
+    configs, sims, binq = done[:nex], done[nex:-1], done[-1]
+    if regen:
+        rec, configs = configs[0], configs[1:]
+        states += rec["tlc"]["distinct"]
+        transitions += rec["tlc"]["generated"]
+    if rec.get("behaviour"):
+        finding_beh.append(rec["behaviour"])
+    states += sum(c["distinct"] for c in configs)
+    transitions += sum(c["generated"] for c in configs)
+    behs = []
+    for k, (name, num, depth, kw, params, roles) in enumerate(fams):
+        b, gen = sims[k]
+        transitions += gen
+        for j, x in enumerate(b):
+            x["params"] = dict(x["params"], role=roles[(j + k + seed) % len(roles)], pos=(j + seed) % 3, sync=(name.endswith("no-fault")))
+        behs += b
+    for k, (name, kw, params, maxr, sv) in enumerate(lossy):
+        b, gen = sims[len(fams) + k]
         transitions += gen
         for j, x in enumerate(b):
             x["steps"] = x["steps"][:-1]      # the last state of a pruned behaviour may be the one that breaks the constraint
             x["params"] = dict(x["params"], role=ROLES[(j + k) % len(ROLES)], pos=(j + seed) % 3)
         behs += b
+    duty_behs = []
+    for k, (name, num, kw) in enumerate(duty):
+        b, gen = sims[len(fams) + len(lossy) + k]
+        transitions += gen
+        duty_behs += b
+    if not any(x["id"].startswith("duty-finding-dup") for x in duty_behs):
+        raise vlib.MachineryError("no behaviour of the duplicate-subcommittee finding class was generated")
     # faithful-spec scenarios synthesised with guides (spec/attacks, family qbft, property C10)
     scen, stale = Q.attack_behaviours(PROP, tier, PROP)
     for x in scen:
@@ -116,40 +331,70 @@ def run(tier, seed):
     behs += scen
     wd = os.path.join(vlib.WORK, PROP)
     os.makedirs(wd, exist_ok=True)
-    binq = vlib.go_build("c10")
     inp = os.path.join(wd, "behaviours.ndjson")
     outp = os.path.join(wd, "result.json")
-    res, wall = vlib.run_driver_sharded(binq, behs + finding_beh, inp, outp, timeout=6000)
-    log("[C10] replayed %d timely behaviours / %d steps on real controllers, %d broadcasts validated %d times by real "
-        "peer gates in %.0fs: %s; %d monitor trips, %d divergences" %
-        (res["behaviours"], res["steps"], res["counters"].get("broadcasts", 0), res["counters"].get("validations", 0), wall,
-         {k: v for k, v in res["counters"].items() if k.startswith("class:")}, res["counters"].get("violations", 0),
-         res["counters"].get("divergences", 0)))
+    # committee-7 and high-round behaviours are the expensive ones: interleave them so that the shards are balanced
+    allb = finding_beh + behs + duty_behs
+    allb.sort(key=lambda x: (hashlib.sha256(x["id"].encode()).hexdigest()))
+    res, wall = vlib.run_driver_sharded(binq, allb, inp, outp, timeout=6000,
+                                        shards=max(1, min(vlib.NCPU, 10 if not thorough else 14, len(allb) // 12)))
+    cnt = res["counters"]
+    classes = {k: v for k, v in cnt.items() if k.startswith("class:")}
+    log("[C10] replayed %d behaviours / %d steps on real controllers and real duty runners (%d duties), %d broadcasts (%d partial-signature "
+        "messages) validated %d times (%d partial) by real peer gates in %.0fs: %s; %d monitor trips, %d divergences" %
+        (res["behaviours"], res["steps"], cnt.get("duty_behaviours", 0), cnt.get("broadcasts", 0), cnt.get("partial_broadcasts", 0),
+         cnt.get("validations", 0), cnt.get("partial_validations", 0), wall, classes, cnt.get("violations", 0), cnt.get("divergences", 0)))
+    if cnt.get("partial_validations", 0) == 0 or cnt.get("duty_behaviours", 0) == 0:
+        raise vlib.MachineryError("no partial-signature message was validated (the duty world did not run)")
     for v in res["violations"]:
         verdict.violation(v["signature"], "%s [%s step %d]" % (v["description"], v["behaviour"], v["step"]), inp)
     rc = verdict.report()
+    # per role and committee size: the highest clock round at which a broadcast was validated
+    max_round = {}
+    for k in cnt:
+        if k.startswith("qbft_max_round:") or k.startswith("duty_max_round:"):
+            _, role, n, r = k.split(":")
+            key = "%s/%s" % (role, n)
+            max_round[key] = max(max_round.get(key, 0), int(r))
+    partial = {}
+    for k, v in cnt.items():
+        if k.startswith("partial:"):
+            _, role, typ, n, cls = k.split(":")
+            partial.setdefault("%s/%s/%s" % (role, typ, n), {})[cls] = v
     cov = {
         "states": states, "transitions": transitions,
         "traces_validated_against_impl": res["behaviours"],
         "samples": res["samples"][:1],
-        "evaluations": res["counters"].get("validations", 0),
+        "evaluations": cnt.get("validations", 0),
         "distinct_nontrivial": res["nontrivial"],
-        "rule": "behaviours = TLC -simulate runs of the timely class (silent leader / silent member / fault-free, all five "
-                "roles, three positions inside the round) + the finding trace; every broadcast of a correct operator is "
-                "validated by the real gate of every other correct peer at emission; non-trivial = at least one broadcast",
-        "exhaustive": all(c["exhaustive"] for c in configs),
-        "detail": {"configs": configs, "validation_classes": {k: v for k, v in res["counters"].items() if k.startswith("class:")},
-                   "ignored_rules": {k[8:]: v for k, v in res["counters"].items() if k.startswith("ignored:")},
-                   "max_global_round": res["counters"].get("max_global_round"),
-                   "finding_trace": bool(finding_beh), "guided_scenarios": [x["id"] for x in scen], "stale_scenarios": stale, "divergences": res["counters"].get("divergences", 0),
-                   "divergence_samples": res["divergences"][:5],
-                   "not_covered": "partial-signature messages of the duty runners are not yet part of this check (consensus "
-                                  "messages and aggregated decided messages are)"},
+        "rule": "behaviours = TLC -simulate runs of QBFTTimely (committees 4 and 7: silent leader(s) / silent member(s) / fault-free; "
+                "late leaders up to the role's maximum round 12 / 6; lossy class; all five consensus roles, three positions inside "
+                "the round) and of PartialTimely (one duty of real runners, all seven roles, committees 4 and 7) + guided scenarios + "
+                "the two finding traces; every broadcast of a correct operator is validated by the real gate of every other correct "
+                "peer at emission (duty world: also in reverse order by a second set of gates); non-trivial = at least one broadcast",
+        "exhaustive": all(c["exhaustive"] for c in configs if "expected_counterexample" not in c),
+        "detail": {"configs": configs, "validation_classes": classes,
+                   "ignored_rules": {k[8:]: v for k, v in cnt.items() if k.startswith("ignored:")},
+                   "committee_sizes": [4, 7],
+                   "max_round_validated": max_round,
+                   "outside_slot_window_skipped": cnt.get("outside_slot_window", 0),
+                   "partial_signature": {"duties_replayed": cnt.get("duty_behaviours", 0), "messages": cnt.get("partial_broadcasts", 0),
+                                         "validations": cnt.get("partial_validations", 0), "by_role_type_committee": partial,
+                                         "state_comparisons": cnt.get("state_comparisons", 0)},
+                   "probed_windows": res.get("notes", []),
+                   "finding_trace": bool(finding_beh), "guided_scenarios": [x["id"] for x in scen], "stale_scenarios": stale,
+                   "divergences": cnt.get("divergences", 0), "divergence_samples": res["divergences"][:5],
+                   "not_covered": "signed-envelope era (post-fork pubsub path); committees 10 and 13; more than one duty per runner "
+                                  "(slot advance between duties); 13 or more signatures in one message; committee-7 classes beyond "
+                                  "two silent members are explored inside a time box and by simulation, not exhaustively"},
     }
     vlib.write_evidence(PROP, tier, seed, "model_checking", cov, time.time() - t0, [
         "timely class = global round clock, deliveries complete before each deadline, due timers fire in any order "
-        "interleaved with deliveries; <= f silent members; quick rounds 2 s, base delay of the role",
-        "the gate is called through ValidateSSVMessage (bare SSV message, pre-fork era); committee 4",
+        "interleaved with deliveries; <= f silent members; rounds timed by the real round-timer arithmetic (quick rounds 2 s, "
+        "slow rounds 2 min after round 8, base delay of the role); the slot window is probed on the real gate",
+        "high-round classes: a late leader's proposal reaches no controller inside its round but every gate inside its window",
+        "the gate is called through ValidateSSVMessage (bare SSV message, pre-fork era); committees 4 and 7",
+        "duty world: the beacon node is the spec's testing node with the node's real sync-committee subnet mapping (index / 128)",
     ], len(verdict.violations))
     return rc
 
